@@ -52,7 +52,8 @@ let ap_of s = (s = "t")
 let () = run_lines (fun toks ->
   match toks with
   | "params" :: _ -> join [sz Model.giv_multiplier; sz Model.giv_modulo; sz Model.giv_halfmod; string_of_bool Model.giv_ctor_normalises;
-                           string_of_bool Model.giv_randiter_clamps; string_of_bool Model.poly_random_resizes]
+                           string_of_bool Model.giv_randiter_clamps; string_of_bool Model.poly_random_resizes;
+                           string_of_bool Model.randiter_assign_copies_size]
   | "lcg" :: form :: seed :: n :: rest ->
     let st = state_of_seed (zs seed) (match rest with s :: _ -> Some s | [] -> None) in
     let n = int_of_string n in
@@ -174,7 +175,7 @@ let () = run_lines (fun toks ->
         st := st1; i := i1;
         out := (show st1 ^ (match o with Some y -> ":" ^ sz y | None -> "")) :: !out) ops;
     fin (join (List.rev !out)) bad used (List.length tr)
-  | "ringseq" :: kind :: p :: seed :: size :: bits :: ops :: _ ->
+  | "ringseq" :: kind :: p :: seed :: size :: bits :: ops :: more ->
     (* the iterator as an object (Model.ri_ctor / ri_run): class, constructor (timer = [] : a non-zero seed never reads it), request sequence *)
     let p = zs p and size = zs size and bits = zs bits in
     let (cls, draw) : Model.ri_class * Model.ri_draw_fn = (match kind with
@@ -184,13 +185,16 @@ let () = run_lines (fun toks ->
       | "gf2" -> (Model.RIModular, (fun _ st -> Model.gf2_random st))
       | _ -> failwith "kind") in
     let card = (match kind with "id" -> z0 | _ -> p) in
+    (* the iterator an A step assigns over: sampling size size2, ring of cardinality card2 *)
+    let (size2, card2) = (match more with s2 :: c2 :: _ -> (zs s2, zs c2) | _ -> (size, card)) in
     let junk = ref 0 in
     let mops = List.concat (List.map (fun c -> incr junk; match c with
         | 'r' | 'c' -> [Model.IDraw (zs (string_of_int (- !junk)))]
         | 'v' | 'R' -> [Model.IDraw z0]
         | 'n' | 'm' -> [Model.INzDraw (zs (string_of_int !junk))]
         | 'C' -> [Model.ICopy]
-        | 'A' -> [Model.IAssignInto (Model.ri_ctor_size cls size card)]
+        | 'A' -> [Model.IAssignInto (Model.ri_ctor_size cls size2 card2)]
+        | 'S' -> [Model.ISelfAssign]
         | _ -> []) (List.init (String.length ops) (String.get ops))) in
     (match Model.ri_ctor cls [] (zs seed) size card with
      | None -> "NONE"
@@ -270,6 +274,7 @@ let () = run_lines (fun toks ->
       | 'D' | 'd' -> Model.PDeg (nat (num o))
       | 'Z' | 'z' -> Model.PDeg0
       | 'S' | 's' | 'I' -> Model.PSize (nat (num o + 1))
+      | 'J' -> if Model.randiter_assign_copies_size then Model.PSize (nat (num o + 1)) else Model.PSize (nat 1)
       | 'L' | 'l' -> Model.PLike (nat (num o + 1))
       | 'B' -> Model.PLike (nat (num o))
       | 'E' -> Model.PExt (nat (num o))
@@ -288,7 +293,7 @@ let () = run_lines (fun toks ->
       end in
     let chunk = ref [] in
     List.iter (fun o ->
-      if o.[0] = 'I' then begin
+      if o.[0] = 'I' || o.[0] = 'J' then begin
         flush (List.rev !chunk); chunk := [];
         if not !dead then begin
           let st = Model.giv_ctor_nz (Model.Z.add (zs seed) (zs "3")) in
